@@ -93,8 +93,13 @@ def history(ctx, K, what):
         k.dirs["/proc"] = ["1", str(P), str(Q)] if v else ["1", str(Q)]
         (k.procs.add if v else k.procs.discard)(P)
 
-    with k.installed():
+    import contextlib
+
+    with k.installed(), contextlib.ExitStack() as stack:
         p = psutil.Process(P)
+        if ctx.flag("inside_oneshot_block"):      # the whole history and the mutator run inside `with p.oneshot():`
+            stack.enter_context(p.oneshot())
+            log.append("with p.oneshot():")
         for i in range(K):
             ev = ctx.choice(f"ev{i}", EVENTS)
             log.append(ev)
